@@ -84,6 +84,7 @@ func (c *consRunner) snapshot() map[string]string {
 	} else {
 		m["record"] = "-"
 	}
+	snapshotConsRewards(w, m)
 	m["h"] = fmt.Sprint(w.ctx.BlockHeight())
 	m["now"] = fmt.Sprint(w.ctx.BlockTime().UnixNano() - t0.UnixNano())
 	// environment: is the CCV channel still open?
@@ -95,6 +96,8 @@ func (c *consRunner) snapshot() map[string]string {
 	}
 	return m
 }
+
+var extraConsOps = map[string]func(c *consRunner, op Op, extra *[]any) error{}
 
 func (c *consRunner) emit() {
 	s := c.snapshot()
@@ -154,6 +157,14 @@ func (c *consRunner) Do(line string) {
 		c.w = NewCWorld("consumer-1")
 		p := ccv.DefaultParams()
 		p.RetryDelayPeriod = time.Duration(op.i("retry"))
+		if op.has("frac") {
+			p.ConsumerRedistributionFraction = op.s("frac")
+			p.BlocksPerDistributionTransmission = op.i("bpdt")
+			p.RewardDenoms = splitPlus(op.s("denoms"))
+			p.DistributionTransmissionChannel = op.s("tch")
+			p.ProviderFeePoolAddrStr = "cosmos1ap0mh6xzfn8943urr84q6ae7zfnar48am2erhd"
+			p.ConsumerId = "7"
+		}
 		ret := c.w.initGenesisNew(c.w.pool.mkUpdates(op.pairs("initial")), &p)
 		// the CCV channel as core IBC would hold it once the handshake is done
 		c.w.chk.setRec(c.w.ctx, ccv.ConsumerPortID, consChan, ChanRec{State: int(channeltypes.OPEN), Ordered: true, Hops: []string{"connection-0"}, Port: ccv.ConsumerPortID, CpPort: ccv.ProviderPortID, CpChan: "channel-9", Version: "1", NextSeq: 1})
@@ -165,6 +176,10 @@ func (c *consRunner) Do(line string) {
 		err = c.guard(func() error { return c.w.mod.BeginBlock(c.w.ctx) })
 	case "cend":
 		var ups []abci.ValidatorUpdate
+		if op.has("tfail") {
+			c.w.env.fail["transfer.Transfer"] = int(op.i("tfail"))
+		}
+		defer delete(c.w.env.fail, "transfer.Transfer")
 		err = c.guard(func() error {
 			var e error
 			ups, e = c.w.mod.EndBlock(c.w.ctx)
@@ -246,7 +261,11 @@ func (c *consRunner) Do(line string) {
 			return c.w.mod.OnAcknowledgementPacket(ctx, "", pkt, ack.Acknowledgement(), nil)
 		})
 	default:
-		panic("unknown consumer op " + op.name)
+		f, ok := extraConsOps[op.name]
+		if !ok {
+			panic("unknown consumer op " + op.name)
+		}
+		err = f(c, op, &extra)
 	}
 	kv := append([]any{"res", errClass(err)}, extra...)
 	if c.w != nil {
@@ -255,7 +274,7 @@ func (c *consRunner) Do(line string) {
 			c.sent = append(c.sent, sent...)
 		}
 		if eff := c.w.env.takeEffects(c.w.ctx); len(eff) > 0 {
-			kv = append(kv, "effects", strings.ReplaceAll(strings.Join(eff, "|"), " ", "_"))
+			kv = append(kv, "effects", strings.NewReplacer(" ", "_", "\n", "", "\t", "").Replace(strings.Join(eff, "|")))
 		}
 	}
 	c.t.obs("r", kv...)
